@@ -1,5 +1,6 @@
 import BlobfinderModel.Model.Proto
 import BlobfinderModel.Model.Lattice
+import BlobfinderModel.Model.Fastmatch
 /-
 Model driver for the lattice algebra (exact rational arithmetic).
 -/
@@ -76,6 +77,30 @@ def opLayout (ws : List String) : String :=
     s!"{r} {m}"
   | _ => "bad-op"
 
+def peaksOf : List Rat → List Peak
+  | py :: px :: e :: t => ⟨(py, px), e⟩ :: peaksOf t
+  | _ => []
+
+/-- `fastmatch tol minw minmatch zy zx ay ax by bx (py px elev)*` -/
+def opFastmatch (ws : List String) : String :=
+  match ws with
+  | tol :: mw :: mm :: rest =>
+    match parseRat? tol, parseRat? mw, mm.toInt?, rats? rest with
+    | some tol, some mw, some mm, some (zy :: zx :: ay :: ax :: by_ :: bx :: pk) =>
+      match fastmatch (peaksOf pk) (zy, zx) (ay, ax) (by_, bx) tol mw mm with
+      | .invalid => "invalid"
+      | .degenerate => "degenerate"
+      | .valid z a b m idx =>
+        s!"valid {showV z} {showV a} {showV b} | " ++ String.join (m.map fun t => if t then "1" else "0") ++ " | " ++
+          " ".intercalate (idx.map fun (i, j) => s!"{i} {j}")
+    | _, _, _, _ => "bad-op"
+  | _ => "bad-op"
+
+def opRound (ws : List String) : String :=
+  match rats? ws with
+  | some l => " ".intercalate (l.map fun x => toString (roundHalfEven x))
+  | none => "bad-op"
+
 def step (line : String) : String :=
   match words line with
   | "coords" :: ws => opCoords ws
@@ -84,6 +109,8 @@ def step (line : String) : String :=
   | "matchcoords" :: ws => opMatchCoords ws
   | "wls" :: ws => opWls ws
   | "layout" :: ws => opLayout ws
+  | "fastmatch" :: ws => opFastmatch ws
+  | "round" :: ws => opRound ws
   | _ => "bad-op"
 
 def main : IO Unit := run step
